@@ -663,19 +663,19 @@ CLAIMS = [
           "every leaf formatter method of the default and the customised formatter writes only through write_all, stops "
           "at the first failed write and returns that error, returns Ok only if all writes succeeded, and emits exactly "
           "the documented spelling for every argument and all 576 printer option sets",
-          "all paths; writer returning an arbitrary error at any write", configs=("fast",), also=("C01", "C02")),
+          "all paths; writer returning an arbitrary error at any write", configs=("fast",), also=("C01", "C02", "C13")),
     Claim("c07_escape_emissions", "C07", "quick", claim_escapes,
           "string escape writers (R6RS and Emacs), CharEscape::from_escape_table and the compiled ESCAPE table: every byte "
           "is classified and spelled as documented (\\a \\b \\t \\n \\r \\\" \\\\, \\xHH; resp. \\u00HH), written with write_all",
-          "all 256 bytes, both string syntaxes", configs=("fast",), also=("C01", "C02")),
+          "all 256 bytes, both string syntaxes", configs=("fast",), also=("C01", "C02", "C13")),
     Claim("c07_char_emissions", "C07", "quick", claim_chars,
           "write_scheme_char / write_elisp_char: printable ASCII literally (Emacs: backslash before ()[]\\;|'`#.,), every "
           "other scalar value as lower-case hex through write_fmt",
-          "every Unicode scalar value", configs=("fast",), also=("C01", "C02")),
+          "every Unicode scalar value", configs=("fast",), also=("C01", "C02", "C13")),
     Claim("c01_print_list_structure", "C01", "quick", claim_print_structure,
           "Printer::print on a list: per cell separator iff not the first, the element, and ` . tail` exactly when the cdr "
           "is neither the empty list nor a pair; end_list after the last cell; errors of any formatter call stop the output",
-          "any list length (loop cut), every cdr kind", configs=("fast",), also=("C02", "C07")),
+          "any list length (loop cut), every cdr kind", configs=("fast",), also=("C02", "C07", "C13")),
 ]
 
 
